@@ -10,9 +10,11 @@
 (*                                                                         *)
 (*   env TRACE = ndjson file; its first record is                           *)
 (*       {"op":"config","props":["C01",...]}                                *)
-(*   output: <<"BAD", line, pid, property, predicate>> per failure,         *)
-(*           <<"TVSTAT", property, predicate, count>> and                   *)
-(*           <<"TVDONE", records, checks>> at the end.                      *)
+(*   output (one printed string each, payload is a JSON array):             *)
+(*     "BAD [line, pid, property, predicate, class]" per failing predicate  *)
+(*         (class names a known-finding shape, see Preds!KF, or ""),        *)
+(*     "TVSTAT [property, predicate, count]" and "TVDONE [records, checks]" *)
+(*     at the end.                                                          *)
 (***************************************************************************)
 EXTENDS Naturals, Integers, Sequences, FiniteSets, SequencesExt,
         FiniteSetsExt, Functions, TLC, Json, IOUtils, Text, Vlq, SMap, Sem, Preds
@@ -38,7 +40,7 @@ Step ==
          sel == {c \in Checks(r, st) : c[1] \in Props}
      IN /\ \A c \in sel :
              IF Holds(c, r, st) THEN TRUE
-             ELSE PrintT(<<"BAD", l, r.pid, c[1], c[2]>>)
+             ELSE PrintT("BAD " \o ToJson(<<l, r.pid, c[1], c[2], KF(c, r, st)>>))
         /\ st' = NextState(r, st)
         /\ cnt' = Bump(cnt, sel)
   /\ l' = l + 1
@@ -47,6 +49,6 @@ Spec == Init /\ [][Step]_vars
 
 Done ==
   l = NRec + 1 =>
-    /\ \A k \in DOMAIN cnt : PrintT(<<"TVSTAT", k[1], k[2], cnt[k]>>)
-    /\ PrintT(<<"TVDONE", NRec, FoldFunction(+, 0, cnt)>>)
+    /\ \A k \in DOMAIN cnt : PrintT("TVSTAT " \o ToJson(<<k[1], k[2], cnt[k]>>))
+    /\ PrintT("TVDONE " \o ToJson(<<NRec, FoldFunction(+, 0, cnt)>>))
 =============================================================================
